@@ -393,6 +393,39 @@ def oracle_spatial(case, rec):
                       "geo_save_load_%s_grid" % fmt, rtol=0)
             rec.close(net2.grid.lon_sequence(), gnet.grid.lon_sequence(),
                       "geo_save_load_%s_grid" % fmt, rtol=0)
+    # ClimateNetwork: the same graph as the thresholded similarity matrix
+    from pyunicorn.climate import ClimateNetwork
+    S = 0.125 + 0.75 * (A != 0)
+    np.fill_diagonal(S, 1.0)
+
+    def mk_clim():
+        return _set_attrs(ClimateNetwork(
+            ggrid, S.copy(), threshold=0.5, directed=directed,
+            node_weight_type=nwt, silence_level=3), attrs)
+    ok, cnet = rec.call("climate_construct", mk_clim)
+    if not ok:
+        return
+    check_net(rec, cnet, "climate_%s" % nwt, g, n, A, wg, attrs, tol=2e-6)
+    for fmt in ("graphml", "pickle", "gml"):
+        fns = ("cn_%d.%s" % (pid, fmt), "cg_%d.pkl" % pid, "cs_%d.npy" % pid)
+
+        def rt(fmt=fmt, fns=fns):
+            cnet.save(fns, fileformat=fmt)
+            try:
+                return ClimateNetwork.Load(fns, fileformat=fmt,
+                                           silence_level=3)
+            finally:
+                for f in fns:
+                    if os.path.exists(f):
+                        os.remove(f)
+        ok2, net2 = rec.call("climate_save_load_%s_raises" % fmt, rt)
+        if ok2:
+            check_net(rec, net2, "climate_save_load_%s" % fmt, g, n, A, wg,
+                      attrs, tol=2e-6)
+            rec.close(net2.similarity_measure(), cnet.similarity_measure(),
+                      "climate_save_load_%s_similarity" % fmt, rtol=0)
+            rec.close(net2.grid.lat_sequence(), cnet.grid.lat_sequence(),
+                      "climate_save_load_%s_grid" % fmt, rtol=0)
 
 
 # -------------------------------------------------------------- generators
